@@ -102,6 +102,30 @@ Example C08_example :
 Proof. exact diff_example. Qed.
 Print Assumptions C08_example.
 
+(* ---- diffs of any length.  The huge-fail class of the check (a diff of more than
+   rdb.DefaultBatchSize records that one line makes inapplicable) carries only the offending line;
+   these two theorems say what the model does with the whole diff, whatever precedes and follows
+   that line (pre, post arbitrary, of any length).  line_okb / line_dels: Model/DiffLine.v. *)
+From DnsV Require Import Model.DiffLine Proofs.DiffHuge.
+
+(* a line ApplyDiff cannot read (unknown operation, or an argument the codec rejects) anywhere in a
+   diff: an error, and the store is the store before *)
+Theorem C08_failing_line_anywhere_is_noop : forall conv sort db pre l post,
+  line_okb conv l = false ->
+  exists e, (e = E_CONV \/ e = E_BADOP) /\ apply_diff_effect conv sort db (pre ++ l :: post) = (db, e).
+Proof. exact failing_line_anywhere_is_noop. Qed.
+Print Assumptions C08_failing_line_anywhere_is_noop.
+
+(* a readable diff that deletes, anywhere, a value which its key neither holds (an absent key holds
+   nothing) nor receives from the diff: ErrNXVal, and the store is the store before *)
+Theorem C08_absent_delete_anywhere_is_noop : forall conv sort, sort_ok sort -> forall db pre l post k v,
+  store_ok db -> Forall (line_ok conv) (pre ++ l :: post) -> kvs_ok (adds_of conv (pre ++ l :: post)) ->
+  In (k, v) (line_dels conv l) ->
+  ~ In v (vals db k ++ vals_of k (adds_of conv (pre ++ l :: post))) ->
+  apply_diff_effect conv sort db (pre ++ l :: post) = (db, E_NXVAL).
+Proof. exact absent_delete_anywhere_is_noop. Qed.
+Print Assumptions C08_absent_delete_anywhere_is_noop.
+
 (* ================================================================================================
    C08 ON TEXT: the Section variables of the theorems above instantiated with the CONCRETE codec of
    Model/Text.v (proofs: Proofs/LinkDiffText.v, Proofs/LinkPreprocDiff.v).
